@@ -3,6 +3,7 @@ is the prover of record for sequence VCs, z3 the model finder.  Verdicts:
   unsat -> discharged     sat -> refuted (+ model)     unknown/timeout/crash -> undecided
 """
 import os
+import sys
 import subprocess
 import tempfile
 import time
@@ -120,14 +121,64 @@ def solve_smt2(job):
             proc.kill()
             proc.communicate()
             return dict(name=name, result="unsat", solver="z3", seconds=time.time() - t0, models=[], detail="")
-        # wait for cvc5
+        # wait for cvc5 - it usually answers within a second; if it has not after a few, z3 gets a longer attempt in this
+        # process while cvc5 keeps running in its own (some row-list VCs are unsat for z3 in ~6 s and time out in cvc5)
+        r_long = None
         try:
-            out, err = proc.communicate(timeout=max(1.0, budget - (time.time() - t0)) + 5)
+            out, err = proc.communicate(timeout=min(3.0, max(1.0, budget - (time.time() - t0))))
             cres = (out.strip().split("\n") or [""])[0].strip()
         except subprocess.TimeoutExpired:
-            proc.kill()
-            proc.communicate()
-            cres, err = "timeout", ""
+            cres, err = None, ""
+        if cres is None and r != z3.unsat:
+            left = budget - (time.time() - t0) - 1
+            if left > 2:
+                # z3 as a non-incremental command-line run first (its default tactic decides some VCs the incremental API solver
+                # does not), then the API solver for whatever time is left (needed anyway for a model)
+                r_long = z3.unknown
+                zcli = os.path.join(os.path.dirname(sys.executable), "z3")
+                if os.path.exists(zcli):
+                    try:
+                        pz = subprocess.run([zcli, f"-T:{max(1, int(left * 0.7))}", path], capture_output=True, text=True, timeout=left)
+                        first = (pz.stdout.strip().split("\n") or [""])[0].strip()
+                        if first == "unsat":
+                            r_long = z3.unsat
+                        elif first == "sat":
+                            r_long = z3.sat
+                    except subprocess.TimeoutExpired:
+                        pass
+                s3 = z3.Solver()
+                s3.from_string(smt2)
+                if r_long != z3.unsat:
+                    left = budget - (time.time() - t0) - 1
+                    if left > 1 or r_long == z3.sat:
+                        s3.set("timeout", int(max(left, 5) * 1000))
+                        r3 = s3.check()
+                        if r3 != z3.unknown:
+                            r_long = r3
+                        elif r_long == z3.sat:
+                            proc.kill()
+                            proc.communicate()
+                            return dict(name=name, result="sat", solver="z3(cli)", seconds=time.time() - t0, models=[], detail="no model")
+                if r_long == z3.unsat and not second:
+                    proc.kill()
+                    proc.communicate()
+                    return dict(name=name, result="unsat", solver="z3", seconds=time.time() - t0, models=[], detail="cvc5 still running")
+                if r_long == z3.sat:
+                    m = s3.model()
+                    proc.kill()
+                    proc.communicate()
+                    return dict(name=name, result="sat", solver="z3", seconds=time.time() - t0,
+                                models=[{d.name(): _pyval(m[d]) for d in m.decls() if d.arity() == 0}], detail="")
+                if r_long == z3.unsat:
+                    r = r_long
+        if cres is None:
+            try:
+                out, err = proc.communicate(timeout=max(1.0, budget - (time.time() - t0)) + 5)
+                cres = (out.strip().split("\n") or [""])[0].strip()
+            except subprocess.TimeoutExpired:
+                proc.kill()
+                proc.communicate()
+                cres, err = "timeout", ""
         if cres == "unsat":
             if r == z3.unsat:
                 return dict(name=name, result="unsat", solver="z3+cvc5", seconds=time.time() - t0, models=[], detail="")
@@ -150,7 +201,7 @@ def solve_smt2(job):
             return dict(name=name, result="unsat", solver="z3", seconds=time.time() - t0, models=[], detail=f"cvc5={cres}")
         # neither answered: one longer z3 attempt within what is left of the budget
         left = budget - (time.time() - t0)
-        if left > 2:
+        if left > 2 and r_long is None:
             s3 = z3.Solver()
             s3.from_string(smt2)
             s3.set("timeout", int(left * 1000))
